@@ -30,7 +30,13 @@ var c02MapNames = []string{
 
 var c02MapPerms = []string{"r-xp", "r-xp", "r-xp", "r--p", "rw-p", "---p", "rwxp", "r-x", "x", "-", "p", "xxxx", "", "rwxs", "r-xp-"}
 
+// the name patterns the mapping heuristics branch on (empty, only "(deleted)", brackets, .so)
+var c02MapKeyNames = []string{"", "(deleted)", "(deleted)", "[", "[vdso]", "[x", ".so", "x.so.1", "/bin/prog (deleted)", "/anon_hugepage", " ", "\xff"}
+
 func c02MapName(r *Rng) string {
+	if r.Chance(30) {
+		return c02MapKeyNames[r.Intn(len(c02MapKeyNames))]
+	}
 	switch r.Intn(12) {
 	case 0: // very long
 		return "/" + strings.Repeat("x", 200+r.Intn(5000))
